@@ -20,6 +20,7 @@ package writer
 import (
 	"bytes"
 	"fmt"
+	"math"
 
 	jp "github.com/buger/jsonparser"
 	. "github.com/siglens/siglens/pkg/segment/utils"
@@ -61,9 +62,15 @@ func ParseRawJsonObject(currKey string, data []byte, tsKey *string,
 					return fmt.Errorf("parseRawJsonObject: failed to unescape currKey: %v, err: %v",
 						currKey, err)
 				}
-				parseSingleString(finalKey, tsKey, valUnescaped, ple)
+				err = parseSingleString(finalKey, tsKey, valUnescaped, ple)
+				if err != nil {
+					return err
+				}
 			} else {
-				parseSingleString(finalKey, tsKey, value, ple)
+				err = parseSingleString(finalKey, tsKey, value, ple)
+				if err != nil {
+					return err
+				}
 			}
 		case jp.Number:
 			numVal, err := jp.ParseInt(value)
@@ -130,9 +137,17 @@ func parseNonJaegerRawJsonArray(currKey string, data []byte, tsKey *string,
 					finalErr = encErr
 					return
 				}
-				parseSingleString(finalKey, tsKey, valUnescaped, ple)
+				encErr = parseSingleString(finalKey, tsKey, valUnescaped, ple)
+				if encErr != nil {
+					finalErr = encErr
+					return
+				}
 			} else {
-				parseSingleString(finalKey, tsKey, value, ple)
+				encErr = parseSingleString(finalKey, tsKey, value, ple)
+				if encErr != nil {
+					finalErr = encErr
+					return
+				}
 			}
 		case jp.Number:
 			numVal, encErr := jp.ParseInt(value)
@@ -166,10 +181,16 @@ func parseNonJaegerRawJsonArray(currKey string, data []byte, tsKey *string,
 	return finalErr
 }
 
-func parseSingleString(key string, tsKey *string, valBytes []byte, ple *ParsedLogEvent) {
+func parseSingleString(key string, tsKey *string, valBytes []byte, ple *ParsedLogEvent) error {
 
 	if key == *tsKey {
-		return
+		return nil
+	}
+
+	// the encoded length of a string value is 16 bits wide
+	if len(valBytes) > math.MaxUint16 {
+		return fmt.Errorf("parseSingleString: value of column %v is %v bytes long, max allowed is %v",
+			key, len(valBytes), math.MaxUint16)
 	}
 
 	ple.MakeSpaceForNewColumn()
@@ -184,6 +205,7 @@ func parseSingleString(key string, tsKey *string, valBytes []byte, ple *ParsedLo
 	ple.allCvals[ple.numCols] = valBytes
 
 	ple.numCols++
+	return nil
 }
 
 func parseSingleBool(key string, val bool, tsKey *string, ple *ParsedLogEvent) {
